@@ -382,6 +382,7 @@ EXCLUDED = {
     "PiecewiseExponentialCoalescentGridModel": "cannot be evaluated at all (C08 finding)",
     "KLpq": "no fixture", "KLpqImportance": "no fixture", "SELBO": "no fixture", "VR": "no fixture", "CUBO": "no fixture",
     "EmpiricalSubstitutionModel": "no parameters", "GeneralJC69": "no parameters",
+    "LG": "no parameters", "WAG": "no parameters",
     "InvariantSiteModel": "covered through WeibullSiteModel+invariant only",
     "GeneralSymmetricSubstitutionModel": "no fixture", "GeneralNonSymmetricSubstitutionModel": "no fixture",
     "TimeTreeModel": "plain heights model: covered by C01 second-point evaluation",
